@@ -138,7 +138,7 @@ def grep_forbidden(modules):
 # ---------------------------------------------------------------- streams
 
 def fixes_arg():
-    return "".join("1" if FIXES[k] else "0" for k in ["f1", "f2", "f3", "f4", "f5", "f2b"])
+    return "".join("1" if FIXES[k] else "0" for k in ["f1", "f2", "f3", "f4", "f5", "f2b", "f8", "f10"])
 
 
 def run_stream(pid, idx, hargs, per_case_timeout=20):
@@ -166,11 +166,14 @@ def run_stream(pid, idx, hargs, per_case_timeout=20):
             if " IMPL " not in a or " MODEL " not in b:
                 infra(f"malformed protocol line: {a[:200]} / {b[:200]}")
             head, impl = a.split(" IMPL ", 1)
+            hflags = ""
+            if " ## " in impl:
+                impl, hflags = impl.split(" ## ", 1)
             mhead, mobs = b.split(" MODEL ", 1)
             extra = ""
             if " P " in mobs:
                 mobs, extra = mobs.split(" P ", 1)
-            res.append((a, impl, mobs, extra))
+            res.append((a, impl, mobs, (extra + " " + hflags).strip()))
         rest = fi.read()
         if rest.strip():
             infra("vmodel produced fewer lines than cases")
